@@ -50,3 +50,19 @@ Example lk_discipline_covers :
      "lk_segment_writer__AddEntryToInMemBuf"; "lk_segment_writer__FlushWipBufferToFile";
      "lk_segment_writer__ForceRotateSegmentsForTest"] = true.
 Proof. vm_compute. reflexivity. Qed.
+
+(* functions the query life-cycle property (C17) and the hand-over property (C11) lean on *)
+Definition lk_covered (n : string) : bool := lk_present n && match allowed n lk_exceptions with [] => true | _ => false end.
+Definition lk_c17_functions : list string :=
+  ["lk_segment_query__CancelQuery"; "lk_segment_query__DeleteQuery"; "lk_segment_query__GetAllColsInAggsForQid";
+   "lk_segment_query__SetAllColsInAggsForQid"; "lk_segment_query__setupTimeoutCancelFunc__go1"].
+Definition lk_c11_functions : list string :=
+  ["lk_segment_metadata__GetTotalBlocksInSegments"; "lk_segment_metadata__AddSegMetaToMetadata";
+   "lk_segment_metadata__DeleteSegmentKey"; "lk_segment_metadata__FilterSegmentsByTime";
+   "lk_segment_writer__removeSegKeyFromUnrotatedInfo"; "lk_segment_writer__AddEntryToInMemBuf";
+   "lk_segment_writer__FlushWipBufferToFile"; "lk_segment_writer__ForceRotateSegmentsForTest";
+   "lk_segment_writer__createSegStore"; "lk_segment_query__GetSSRsFromQSR"].
+Lemma lk_c17_functions_covered : forallb lk_covered lk_c17_functions = true.
+Proof. vm_compute. reflexivity. Qed.
+Lemma lk_c11_functions_covered : forallb lk_covered lk_c11_functions = true.
+Proof. vm_compute. reflexivity. Qed.
